@@ -265,10 +265,17 @@ impl ProbabilisticStore {
     /// Verification hook: canonical dump of entries and scheduling state.
     pub fn verif_snapshot(&self) -> String {
         format!(
-            "prob ops={} mod={} entries={}",
-            self.operations_count,
-            self.cleanup_probability,
+            "{} entries={}",
+            self.verif_sched_state(),
             verif_entries(&self.data)
+        )
+    }
+
+    /// Verification hook: the scheduling state only (no entries).
+    pub fn verif_sched_state(&self) -> String {
+        format!(
+            "prob ops={} mod={}",
+            self.operations_count, self.cleanup_probability
         )
     }
 
